@@ -508,4 +508,70 @@ def s_caseconv(ctx, strings):
         ctx.stream('S-CASE', inputs=1, lines=1)
         if io.split() != mo.split():
             ctx.mismatch('S-CASE', (c, s), mo[:200], io[:200])
+
+
+# --- S-FMT, stage-2 projection: the tail of FilterStack.run per statement --------------------------
+def impl_fmtstmt_cases(text, opts):
+    """replicates FilterStack.run for format(text, **opts) and records, per statement, the tree handed to
+    stmtprocess and the string the statement becomes; returns (cases, joined output or 'err X')"""
+    from sqlparse import formatter, lexer, filters
+    from sqlparse.engine import grouping, FilterStack, StatementSplitter
+    o = formatter.validate_options(dict(opts))
+    stack = formatter.build_filter_stack(FilterStack(), o)
+    stack.postprocess.append(filters.SerializerUnicode())
+    stream = lexer.tokenize(text)
+    for f in stack.preprocess:
+        stream = f.process(stream)
+    stream = StatementSplitter().process(stream)
+    cases, out = [], []
+    try:
+        for i, stmt in enumerate(stream, 1):
+            if stack._grouping:
+                stmt = grouping.group(stmt)
+            before = sexp(stmt)
+            try:
+                for f in stack.stmtprocess:
+                    f.process(stmt)
+                for f in stack.postprocess:
+                    stmt = f.process(stmt)
+            except Exception as e:
+                cases.append((i, before, 'err ' + type(e).__name__))
+                return cases, 'err ' + type(e).__name__
+            cases.append((i, before, 'ok ' + hexs(stmt)))
+            out.append(stmt)
+    except Exception as e:               # raised by the lexer / a preprocess generator / the splitter
+        return cases, 'err ' + type(e).__name__
+    return cases, ''.join(out)
+
+
+def s_fmtstmt(ctx, inputs, fuel=100000):
+    """inputs: (text, stage-2 option dict).  Model: options -> plan -> stmtprocess/postprocess/serializer on the real
+    grouped tree of each statement.  Also checks that the harness' replication of run() equals sqlparse.format."""
+    import sqlparse
+    reqs = []
+    for text, opts in inputs:
+        try:
+            cases, joined = impl_fmtstmt_cases(text, opts)
+        except Exception as e:
+            ctx.count('fmtstmt.setup-failed:' + type(e).__name__)
+            continue
+        try:
+            real = sqlparse.format(text, **opts)
+        except Exception as e:
+            real = 'err ' + ('RecursionError' if type(e).__name__ == 'SQLParseError' and joined == 'err RecursionError'
+                             else type(e).__name__)
+        if real != joined:
+            ctx.mismatch('S-FMT2', (text, opts), 'harness: ' + common_short(joined), common_short(real))
+        for i, before, io in cases:
+            reqs.append(((text, opts, i), 'fmtstmt %s %d %d %s' % (enc_dict(opts) or '-', i, fuel, before), io))
+    outs = ctx.model.ask([r[1] for r in reqs])
+    for (inp, _, io), mo in zip(reqs, outs):
+        ctx.stream('S-FMT2', inputs=1, lines=1)
+        if io.split() != mo.split():
+            ctx.mismatch('S-FMT2', inp, mo[:300], io[:300])
+    return len(reqs)
+
+
+def common_short(s):
+    return short(s, 200)
 # <<< formatting side
